@@ -919,7 +919,7 @@ RULE = ("each evaluation = one call (metamorphic kinds: 3 calls) of the current 
 def run(rep, tier_, rng):
     TIER[0] = tier_
     run_kinds(rep, K, tier_, rng, n_quick=140, n_thorough=1000, precs_quick=PRECS_QUICK, precs_thorough=PRECS_THOROUGH,
-              assumptions=ASSUMPTIONS, rule=RULE, not_decided=NOT_DECIDED, budget_quick=120)
+              assumptions=ASSUMPTIONS, rule=RULE, not_decided=NOT_DECIDED, budget_quick=100)
 
 
 def replay(rep, path):
